@@ -950,6 +950,28 @@ def check_perm_history(seed):
     except Exception as e:  # noqa: BLE001
         bad.append((tag + ":raises", "transform / get_fct_inv().transform raises after a second fit",
                     "%s: %s" % (type(e).__name__, str(e)[:120]), "the original targets"))
+    # a table of labels (several targets per row) in either memory layout: cell (i, j) is permuted as a label, and
+    # the reciprocal transformer gives the table back
+    base = numpy.array([[rng.choice([3, 5, 8, 13]) for _ in range(3)] for _ in range(6)])
+    base[:4, 0] = [3, 5, 8, 13]
+    for layout, Y in (("C", numpy.ascontiguousarray(base)), ("F", numpy.asfortranarray(base)), ("T", base.T.copy().T)):
+        tag = "PermutationReciprocalTransformer[label table, %s layout]" % layout
+        try:
+            t = PermutationReciprocalTransformer(random_state=rng.randrange(1, 100)).fit(numpy.zeros((6, 1)), Y)
+            _, mid = t.transform(numpy.zeros((6, 1)), Y)
+            mid = numpy.asarray(mid)
+            want = numpy.array([[t.permutation_[v] for v in row] for row in Y.tolist()])
+            if mid.shape != Y.shape or not numpy.array_equal(mid, want):
+                bad.append((tag + ":cellwise", "transform of a table of labels is not the permutation applied cell by cell",
+                            mid.tolist(), want.tolist()))
+            else:
+                _, back = t.get_fct_inv().transform(numpy.zeros((6, 1)), mid)
+                if not numpy.array_equal(numpy.asarray(back), Y):
+                    bad.append((tag + ":roundtrip", "round trip of a table of labels does not give the table back",
+                                numpy.asarray(back).tolist(), Y.tolist()))
+        except Exception as e:  # noqa: BLE001
+            bad.append((tag + ":raises", "transform / get_fct_inv().transform raises on a table of labels",
+                        "%s: %s" % (type(e).__name__, str(e)[:120]), "the permuted table"))
     for dt in (numpy.float32, numpy.float16):
         vals = [0.5, 1.5, 2.0, 4.0]
         yf = numpy.array([rng.choice(vals) for _ in range(10)] + vals, dtype=dt)
